@@ -181,7 +181,7 @@ func (w *work) build(p *PartSpec) (string, error) {
 	if p.Instrument {
 		cfg := instr.Config{
 			RepoDir: repoDir, OutDir: filepath.Join(hdir, "instr"), Overlay: ov, Env: w.goEnv,
-			Patterns: append([]string{mainPkg}, p.InstrPkgs...), Probes: p.Probes, FsPoints: p.FsPoints, Modfile: modfile,
+			Patterns: append([]string{mainPkg}, p.InstrPkgs...), Probes: p.Probes, FsPoints: p.FsPoints, Modfile: modfile, ImportMap: p.ImportMap,
 		}
 		nov, err := instr.Run(cfg)
 		if err != nil {
@@ -293,6 +293,9 @@ func (w *work) runPart(id string, p *PartSpec, tier, replay string) ([]*Result, 
 			go func() { done <- c.Wait() }()
 			select {
 			case err := <-done:
+				if replay != "" {
+					fmt.Fprint(os.Stderr, tail(eb.String(), 60))
+				}
 				if err != nil {
 					errs[i] = fmt.Errorf("shard %d: %v\n%s", i, err, tail(eb.String(), 40))
 					return
